@@ -315,7 +315,7 @@ fn lost_extra(kept: &BTreeSet<Q>, got: &BTreeSet<Q>) -> (Vec<String>, Vec<String
         for (k, n) in x {
             let d = n - y.get(k).copied().unwrap_or(0);
             for _ in 0..d.max(0) {
-                if v.len() < 40 {
+                if v.len() < 400 {
                     v.push(k.clone());
                 }
             }
